@@ -610,7 +610,8 @@ func famSignatures(t *tgen) {
 			sb.WriteString("\t// " + style + "\n")
 		}
 		if recv {
-			sb.WriteString("\t// :recv " + t.pick("r", "x", "self") + "\n")
+			// mostly fresh names; sometimes one that another parameter, a default name or the error result uses
+			sb.WriteString("\t// :recv " + t.pick("r", "x", "self", "r", "x", "self", "a0", "a1", "err", "dst", "src", "out", "d", "arg0") + "\n")
 		}
 		if rev {
 			sb.WriteString("\t// :reverse\n")
@@ -626,7 +627,11 @@ func famSignatures(t *tgen) {
 		for i := 0; i < nargs; i++ {
 			at := t.pick("int", "string", "*S", "ext.Pub", "[]int", "map[string]*D", "[]S", "func(int) error", "interface{}")
 			if named {
-				at = fmt.Sprintf("a%d %s", i, at)
+				an := fmt.Sprintf("a%d", i)
+				if t.ch(0.12) {
+					an = t.pick("err", "dst", "src", "in", "s", "out", "d", "a0", "_")
+				}
+				at = an + " " + at
 			}
 			params = append(params, at)
 		}
